@@ -126,6 +126,17 @@ func VerifH_C05_proofs() {
 	_, err = w.c.m.AddV2PoolTransactions(tip0, []types.V2Transaction{p, ch})
 	vapi.Assert("build.pool", err == nil)
 	vapi.Assert("build.pool-lists", sameIDs(v2ids(w.c.m.V2PoolTransactions()), v2ids([]types.V2Transaction{x, p, ch})))
+	// optionally a fourth transaction whose (confirmed) input carries an empty
+	// proof - the last leaf of a tree with an odd number of leaves has one -
+	// which must be moved along like any other
+	withEmpty := vapi.Bool("with-empty-proof")
+	var z types.V2Transaction
+	if withEmpty {
+		z = newV2(w.tag(), nil, w.parent())
+		z.SiacoinInputs[0].Parent.StateElement.MerkleProof = nil
+		_, err = w.c.m.AddV2PoolTransactions(tip0, []types.V2Transaction{z})
+		vapi.Assert("build.pool", err == nil)
+	}
 
 	confirm := vapi.Bool("confirm-parent")
 	var blk types.Block
@@ -137,6 +148,17 @@ func VerifH_C05_proofs() {
 	vapi.Assert("proofs.block", w.c.m.AddBlocks([]types.Block{blk}) == nil)
 	vapi.Assert("proofs.tip", w.c.m.Tip().ID == blk.ID())
 	pool := w.c.m.V2PoolTransactions()
+	if withEmpty {
+		zz, ok := w.c.m.V2PoolTransaction(z.ID())
+		vapi.Assert("proofs.apply.empty-proof-kept", ok)
+		if ok {
+			se := zz.SiacoinInputs[0].Parent.StateElement
+			vapi.Assert("proofs.apply.empty-proof-moved-to-tip", len(se.MerkleProof) == 1 && se.MerkleProof[0][0] == byte(blk.Nonce))
+		}
+		if n := len(pool); n > 0 && pool[n-1].ID() == z.ID() {
+			pool = pool[:n-1] // (z is last; the checks below are about x, p, ch)
+		}
+	}
 	if confirm {
 		vapi.Reach("confirmed-parent")
 		vapi.Assert("proofs.apply.kept", sameIDs(v2ids(pool), v2ids([]types.V2Transaction{x, ch})))
@@ -195,4 +217,70 @@ func VerifH_C05_proofs() {
 		}
 	}
 	vapi.Assert("proofs.revert.independent-survives", foundX)
+}
+
+// VerifH_C05_reverted_retry: transactions of the last reverted block are
+// tried again at every revalidation, but behind what the pool already
+// accepted: an accepted set is not displaced by a stale transaction that
+// becomes valid again.
+//
+//verif:harness prop=C05 tier=quick replay=interp z3timeout=400 require=kept bounds="v1 or v2; b1 confirms X; a heavier fork reverts it while X is invalid against the fork; a conflicting Y is accepted; X becomes valid again; an unrelated block triggers revalidation"
+func VerifH_C05_reverted_retry() {
+	newAbsPool()
+	w := &poolWorld{c: newAbsChain(), next: 1}
+	c := w.c
+	b0 := c.newBlock(0, true)
+	vapi.Assert("build.block", c.m.AddBlocks([]types.Block{b0}) == nil)
+	useV2 := vapi.Bool("v2")
+	o := byte(5) // the contested output (leaf number compatible with the block codec)
+	var xID, yID types.TransactionID
+	var x1, y1 types.Transaction
+	var x2, y2 types.V2Transaction
+	var b1 types.Block
+	if useV2 {
+		x2, y2 = newV2(20, nil, o), newV2(21, nil, o)
+		xID, yID = x2.ID(), y2.ID()
+		b1 = w.v2Block(x2)
+	} else {
+		x1, y1 = newV1(20, o), newV1(21, o)
+		// (only fee-paying transactions of a reverted block are tried again)
+		x1.MinerFees = []types.Currency{types.NewCurrency64(3)}
+		y1.MinerFees = []types.Currency{types.NewCurrency64(4)}
+		xID, yID = x1.ID(), y1.ID()
+		b1 = c.newBlock(b0.Nonce, true)
+		vapi.Assume(times5(absW.work[b1.Nonce]) > uint64(c.m.TipState().OakTime))
+		b1.Transactions = []types.Transaction{x1}
+	}
+	vapi.Assert("retry.b1", c.m.AddBlocks([]types.Block{b1}) == nil && c.m.Tip().ID == b1.ID())
+	// a heavier fork from b0 reverts b1; against it X is (for now) invalid
+	absP.txBad[20] = true
+	f1 := c.newBlock(b0.Nonce, true)
+	f2 := c.newBlock(f1.Nonce, true)
+	vapi.Assume(times5(c.totalWork(f2.Nonce)) > times5(c.totalWork(b1.Nonce))+absW.diff[b1.Nonce])
+	vapi.Assert("retry.fork", c.m.AddBlocks([]types.Block{f1, f2}) == nil && c.m.Tip().ID == f2.ID())
+	inPool := func(id types.TransactionID) bool {
+		if useV2 {
+			_, ok := c.m.V2PoolTransaction(id)
+			return ok
+		}
+		_, ok := c.m.PoolTransaction(id)
+		return ok
+	}
+	vapi.Assert("retry.x-not-pooled-while-invalid", !inPool(xID))
+	// the conflicting Y is submitted and accepted
+	var err error
+	if useV2 {
+		_, err = c.m.AddV2PoolTransactions(c.m.Tip(), []types.V2Transaction{y2})
+	} else {
+		_, err = c.m.AddPoolTransactions([]types.Transaction{y1})
+	}
+	vapi.Assert("retry.y-accepted", err == nil && inPool(yID))
+	// X becomes valid again; an unrelated block makes the pool revalidate
+	absP.txBad[20] = false
+	f3 := c.newBlock(f2.Nonce, true)
+	vapi.Assume(times5(absW.work[f3.Nonce]) > uint64(c.m.TipState().OakTime))
+	vapi.Assert("retry.block", c.m.AddBlocks([]types.Block{f3}) == nil && c.m.Tip().ID == f3.ID())
+	vapi.Assert("retry.accepted-set-outlives-the-stale-transaction", inPool(yID))
+	vapi.Assert("retry.stale-conflicting-transaction-stays-out", !inPool(xID))
+	vapi.Reach("kept")
 }
